@@ -754,6 +754,8 @@ fn gen_c13(k: usize, rng: &mut Rng, tier_long: bool) -> Spec {
     let mut uid: u32 = 1;
     if mode >= 8 {
         s.trk = "sort".into();
+    } else if rng.chance(1, 8) {
+        s.trk = "bvs".into(); // BatchVisualSort, one scene per batch, used synchronously
     }
     let n = if mode <= 5 {
         if rng.chance(1, 4) || tier_long { *rng.pick(&[150usize, 300, 40, 20]) } else { 5 + rng.below(40) as usize }
